@@ -50,10 +50,18 @@ def frag_tokens(frag, out):
         node_tokens(frag.child(i), out)
 
 
+MALFORMED = {"k": "?", "t": "unprojectable", "a": {}, "m": [], "c": 0, "b": False}
+
+
 def proj(node):
-    """Tokens of the content of `node` (a document)."""
+    """Tokens of the content of `node` (a document).  An object that cannot be read as a document (e.g. a text-typed
+    node without text) is projected to a single malformed token, which no specification accepts as well-formed - the
+    judgement stays with the trace specification instead of crashing the driver."""
     out = []
-    frag_tokens(node.content, out)
+    try:
+        frag_tokens(node.content, out)
+    except (AttributeError, TypeError, KeyError, IndexError):
+        return [dict(MALFORMED)]
     return out
 
 
